@@ -539,6 +539,9 @@ func (al *ListLiteral) String() string {
 
 type Ident struct {
 	Name string
+	// IsFunc is true if the name was resolved to a static function. A local
+	// value of the same name hides the function, and is not flagged.
+	IsFunc bool
 	Line
 }
 
@@ -1196,7 +1199,7 @@ func (p *Parser[V]) parseLiteral(tokenizer *Tokenizer, idents Identifiers[V]) (A
 				if i, ok := idents(name); ok {
 					if i.IsConst {
 						if i.IsFunc {
-							return &Ident{Name: name, Line: t.Line}, nil
+							return &Ident{Name: name, IsFunc: true, Line: t.Line}, nil
 						} else {
 							return &Const[V]{Value: i.Const, Line: t.Line}, nil
 						}
